@@ -52,7 +52,8 @@ mod verif_kani_wgsl {
         let n: u8 = if vector { size as u8 } else { 1 };
         kani::assume(supported(kind, width, n));
         let inner = if vector { naga::TypeInner::Vector { size, scalar } } else { naga::TypeInner::Scalar(scalar) };
-        let ty = naga::Type { name: None, inner };
+        // ManuallyDrop: the drop glue of TypeInner (Struct members, names) is irrelevant here and dominates CBMC's cost
+        let ty = std::mem::ManuallyDrop::new(naga::Type { name: None, inner });
         let f = vertex_format(&ty);
         assert!(shape(f) == Some((kind, width, n)), "C07.format: vertex format has the kind, width and component count of the WGSL type");
     }
